@@ -211,6 +211,8 @@ pub fn admin_menu() -> Vec<Op> {
         v.push(Op::RemoveValidator { sender: p.clone(), which: 0 });
         v.push(Op::TransferOwnership { sender: p.clone(), to: P::Nominee });
         v.push(Op::TransferOwnership { sender: p.clone(), to: p.clone() });
+        // the admin nominates every kind of principal (monitors, hook accounts, the contract, the treasury ...): the lock is the same for all
+        v.push(Op::TransferOwnership { sender: P::Admin, to: p.clone() });
         v.push(Op::AcceptOwnership { sender: p.clone() });
         v.push(Op::RevokeOwnership { sender: p.clone() });
         v.push(Op::UpdateConfig { sender: p.clone(), sections: 31 });
@@ -236,7 +238,9 @@ pub fn admin_menu() -> Vec<Op> {
     }
     // the third user is a configured monitor in configuration variant 2
     v.push(Op::Breaker { sender: P::U(2) });
-    for w in 1..5 {
+    v.push(Op::TransferOwnership { sender: P::Admin, to: P::U(2) });
+    v.push(Op::TransferOwnership { sender: P::Admin, to: P::Treasury });
+    for w in 1..8 {
         v.push(Op::AddValidator { sender: P::Admin, which: w });
         v.push(Op::RemoveValidator { sender: P::Admin, which: w });
     }
